@@ -96,7 +96,7 @@ SOURCES = [
        pre_subst=[(r'new \(it\) hazard_era;', 'XV_CONSTRUCT_SLOT(it);', 'construct_slot')], self_calls={'begin': 'blk_begin', 'end': 'blk_end'},
        must_fire={'subst:construct_slot': 1, 'ctor_init': 1, 'self_call:begin': 1, 'self_call:end': 1}),
   dict(id='blk_begin', file=IMPL, sig=r'hazard_era\* begin\(\)', which=2, c_sig='static struct hazard_era* blk_begin(struct he_block* self)',
-       types={'hazard_era*': 'struct hazard_era*'}, must_fire={'cast': 1}),
+       types={'hazard_era*': 'xv_slots_after'}, must_fire={'cast': 1}),
   dict(id='blk_end', file=IMPL, sig=r'hazard_era\* end\(\)', which=2, c_sig='static struct hazard_era* blk_end(struct he_block* self)',
        members=['size'], self_calls={'begin': 'blk_begin'}, must_fire={'member:size': 1, 'self_call:begin': 1}),
   dict(id='blk_initialize_next_block', file=IMPL, sig=r'hazard_era\* initialize_next_block\(\)\s*(?=\{)', which=0,
@@ -165,16 +165,15 @@ GROUPS = [('slots_alloc', 'h_slots', 0, 0, {}), ('slots_rel_init', 'h_slots', 1,
           ('g_acquire_if_equal', 'h_guards', 9, 9, {}),
           ('int_acquire', 'h_int', 0, 0, dict(mode='INT', note='retry loop of acquire cut by invariant ACQ; source cell and era clock rewritten by the environment before each load of them')),
           ('int_acquire_if_equal', 'h_int', 1, 1, dict(mode='INT')),
-          ('dyn_alloc', 'h_dyn', 0, 0, dict(dyn=True, note='dynamic strategy, 0..2 blocks of K slots exist, a further block can be allocated')),
-          ('dyn_initialize', 'h_dyn', 1, 1, dict(dyn=True))]
+          ] + [('dyn_B%d' % b, 'h_dyn', 0, 1, dict(dyn=True, nblk=b, note='dynamic strategy: %d block(s) of K slots exist beforehand, one more can be allocated; alloc_hazard_era and initialize' % b)) for b in (0, 1, 2)]
 RUNS = []
 for k in KS_QUICK + [8]:
     for name, entry, lo, hi, extra in GROUPS:
-        extra = dict(extra); dyn = extra.pop('dyn', False)
+        extra = dict(extra); dyn = extra.pop('dyn', False); nblk = extra.pop('nblk', None)
         tiers = ['quick', 'thorough'] if (k in KS_QUICK and not (dyn and k == 5)) else ['thorough']
         nslot = (3 * k + max(k, (3 * k) // 2)) if dyn else k
         defs = {'XV_K': k, 'XV_OPS_LO': lo, 'XV_OPS_HI': hi}
-        if dyn: defs['XV_DYN'] = 1
+        if dyn: defs['XV_DYN'] = 1; defs['XV_NBLK'] = nblk
         RUNS.append(dict(dict(id='%s_K%d' % (name, k), entry=entry, tiers=tiers, cls='shape-complete', defs=defs, unwind=nslot + 2), **extra))
 
 OBL = {
